@@ -19,9 +19,13 @@ Definition writes (fd : fdn) (chunks : list bytes) : list op := map (OWrite fd) 
    (O_CREAT|O_EXCL), Write (one write(2) per chunk; Go issues a single one unless the
    kernel returns a short count), Sync, Close, os.Rename over Path, then a best-effort
    sync of the directory ([dirsync] = it could be opened and synced). *)
-Definition store_ops (chunks : list bytes) (dirsync : bool) : list op :=
-  [OOpen 0 tmp true true false] ++ writes 0 chunks ++ [OFsync 0; OClose 0; ORename tmp tgt]
+Definition store_ops_named (t : name) (chunks : list bytes) (dirsync : bool) : list op :=
+  [OOpen 0 t true true false] ++ writes 0 chunks ++ [OFsync 0; OClose 0; ORename t tgt]
   ++ (if dirsync then [OOpenDir 1; OFsync 1; OClose 1] else []).
+(* on a directory without leftovers the temporary file is the first other name *)
+Definition store_ops (chunks : list bytes) (dirsync : bool) : list op := store_ops_named tmp chunks dirsync.
+(* os.CreateTemp opens with O_EXCL and picks a name that does not exist: with k leftover
+   files (names 1..k) the new temporary file is name k+1 *)
 
 (* StoreSession before the repair: os.WriteFile(Path) = open(O_CREAT|O_TRUNC); write; close *)
 Definition writefile_ops (chunks : list bytes) : list op :=
